@@ -318,31 +318,38 @@ LOCAL_ALIASES = {}
 
 
 def binding_order(fdef):
-    """names bound in the function body, one entry per binding SITE in source order (parameters first; a name bound at
-    several sites - re-assigned, or reused as the variable of a second loop - appears once per site)"""
+    """binding sites of the function in source order (parameters first): [name, what is bound] per site; a name bound at
+    several sites (re-assigned, or reused as the variable of a second loop) appears once per site.  `what` is the source
+    text of the bound expression (for a loop variable: of the iterated expression)"""
     out = []
 
-    def add(n):
-        out.append(n)
+    def add(n, what):
+        out.append([n, what])
 
     for a in fdef.args.posonlyargs + fdef.args.args + fdef.args.kwonlyargs:
-        add(a.arg)
+        add(a.arg, "<parameter>")
 
-    def targets(t):
+    def targets(t, what):
         if isinstance(t, ast.Name):
-            add(t.id)
+            add(t.id, what)
         elif isinstance(t, (ast.Tuple, ast.List)):
-            for e in t.elts:
-                targets(e)
+            for k, e in enumerate(t.elts):
+                targets(e, "%s[%d]" % (what, k))
         elif isinstance(t, ast.Starred):
-            targets(t.value)
+            targets(t.value, what)
+
+    def src(e):
+        try:
+            return ast.unparse(e)
+        except Exception:
+            return "?"
 
     class V(ast.NodeVisitor):
         def visit_FunctionDef(self, n):
             if n is fdef:
                 self.generic_visit(n)
             else:
-                add(n.name)
+                add(n.name, "def")
 
         def visit_Lambda(self, n):
             pass
@@ -355,20 +362,20 @@ def binding_order(fdef):
         def visit_Assign(self, n):
             self.visit(n.value)
             for t in n.targets:
-                targets(t)
+                targets(t, src(n.value))
 
         def visit_AugAssign(self, n):
             self.visit(n.value)
-            targets(n.target)
+            targets(n.target, "aug " + src(n.value))
 
         def visit_AnnAssign(self, n):
             if n.value is not None:
                 self.visit(n.value)
-            targets(n.target)
+            targets(n.target, src(n.value) if n.value is not None else "")
 
         def visit_For(self, n):
             self.visit(n.iter)
-            targets(n.target)
+            targets(n.target, "for " + src(n.iter))
             for st in n.body + n.orelse:
                 self.visit(st)
 
@@ -376,37 +383,76 @@ def binding_order(fdef):
             for it in n.items:
                 self.visit(it.context_expr)
                 if it.optional_vars is not None:
-                    targets(it.optional_vars)
+                    targets(it.optional_vars, "with " + src(it.context_expr))
             for st in n.body:
                 self.visit(st)
 
         def visit_NamedExpr(self, n):
             self.visit(n.value)
-            targets(n.target)
+            targets(n.target, src(n.value))
 
     V().visit(fdef)
     return out
 
 
+def _subst_names(text, m):
+    if not m:
+        return text
+    import re
+
+    return re.sub(r"(?<![\w.])(%s)(?!\w)" % "|".join(re.escape(k) for k in m), lambda mo: m[mo.group(1)], text)
+
+
 def set_local_aliases(qname, fdef, recorded):
-    """recorded: the binding order on the unchanged tree (or None). Fills LOCAL_ALIASES for a pure rename."""
+    """recorded: the binding sites on the unchanged tree (or None). Fills LOCAL_ALIASES (recorded name -> current name) for
+    locals that were RENAMED: binding sites are aligned (difflib), and inside a block that differs a recorded site is
+    paired with the current site that binds the same expression (modulo the renames found so far), else by position."""
     LOCAL_ALIASES.clear()
     if not recorded:
         return
-    cur = binding_order(fdef)
-    if len(cur) != len(recorded) or cur == recorded:
-        return  # same names, or binding sites were added / removed: the names are used as written
-    images = {}
-    for old, new in zip(recorded, cur):
-        images.setdefault(old, []).append(new)
+    import difflib
+
+    rec = [tuple(x) if isinstance(x, (list, tuple)) else (x, "") for x in recorded]
+    cur = [tuple(x) for x in binding_order(fdef)]
+    if [r[0] for r in rec] == [c[0] for c in cur]:
+        return
+    cur_names = [c[0] for c in cur]
+    rec_names = [r[0] for r in rec]
+    pairs = {}  # old name -> [new names]
+    sm = difflib.SequenceMatcher(a=rec_names, b=cur_names, autojunk=False)
+    blocks = [(i1, i2, j1, j2) for tag, i1, i2, j1, j2 in sm.get_opcodes() if tag == "replace"]
+    changed = True
+    known = {}
+    used = set()
+    while changed:
+        changed = False
+        for i1, i2, j1, j2 in blocks:
+            for i in range(i1, i2):
+                if (i,) in used:
+                    continue
+                want = _subst_names(rec[i][1], known)
+                for j in range(j1, j2):
+                    if ("n", j) in used:
+                        continue
+                    if cur[j][1] == want and cur[j][1] not in ("", "?"):
+                        used.add((i,))
+                        used.add(("n", j))
+                        pairs.setdefault(rec[i][0], []).append(cur[j][0])
+                        if rec[i][0] != cur[j][0] and rec[i][0] not in known:
+                            known[rec[i][0]] = cur[j][0]
+                        changed = True
+                        break
+    for i1, i2, j1, j2 in blocks:
+        olds = [i for i in range(i1, i2) if (i,) not in used]
+        news = [j for j in range(j1, j2) if ("n", j) not in used]
+        if len(olds) == len(news):
+            for i, j in zip(olds, news):
+                pairs.setdefault(rec[i][0], []).append(cur[j][0])
     m = {}
-    for old, news in images.items():
-        if old in cur:
-            continue  # the recorded name is still bound somewhere: it keeps its meaning
+    for old, news in pairs.items():
         best = max(set(news), key=news.count)
-        if best in recorded:
-            return  # names were swapped / recycled: not a pure rename
-        m[old] = best
+        if best != old and best not in rec_names:
+            m[old] = best
     LOCAL_ALIASES.update(m)
 
 
@@ -420,7 +466,8 @@ def alias_text(text):
 
 
 def resolve_local(name, env):
-    if name in dict.keys(env) if isinstance(env, dict) else name in env:
+    """a recorded name that is bound in this scope right now keeps its meaning; otherwise its renamed counterpart"""
+    if isinstance(env, dict) and dict.__contains__(env, name):
         return name
     return LOCAL_ALIASES.get(name, name)
 
